@@ -175,6 +175,15 @@ def _checkpoint(check: Check, aa: AtomicAnalysis):
              node=c)
     # removal list provenance
     loops = [l for l in _for_loops_of(fs, c)]
+    if not loops:
+      a0 = c.args[0] if c.args else None
+      single = isinstance(a0, ast.Subscript) and not isinstance(a0.slice, ast.Slice)
+      if single:
+        check.ob('R-RETAIN', save, txt(c), False,
+                 'a single fixed entry is deleted per save: after an interruption between save and delete (or a lowered `keep`) '
+                 'more than `keep` checkpoints survive forever; all but the newest `keep` must be removed', node=c)
+      else:
+        check.inconclusive('R-RETAIN', save, txt(c), 'deletion is not a loop over the retention list')
     if loops:
       it = loops[0].iter
       srcs = fs.expand(it)
